@@ -1,5 +1,5 @@
 SPECIFICATION Spec
 CHECK_DEADLOCK FALSE
 CONSTANTS
-  MaxWords = 4
+  MaxWords = 28
 INVARIANT Emit
